@@ -598,6 +598,9 @@ pub fn tokens() -> Vec<(&'static str, Vec<u8>)> {
         ("D2", vec![0xD2]),
         ("D4D2", vec![0xD4, 0xD2]),
         ("D303FF", vec![0xD3, 0x03, 0xFF]),
+        // a frame long enough to complete the bogus candidates "D3 | D3 00 .." (length 768+) and "D3 xx | D3 .." (length 211+)
+        // that a stray preamble one or two bytes in front of it starts
+        ("L800", make_frame(&fill(5, 800))),
     ]
 }
 
@@ -889,7 +892,15 @@ fn drain(tail: &[u8], calls: &mut u64) -> (usize, Vec<Vec<u8>>) {
         let (c, f) = next_msg_frame(&tail[pos..]);
         pos += c;
         match f {
-            Some(f) => frames.push(f.frame_data().to_vec()),
+            Some(f) => {
+                // what a caller can observe of a delivered frame: its bytes and the message number it reports
+                let mut o = f.frame_data().to_vec();
+                match f.message_number() {
+                    Some(n) => o.extend_from_slice(&[1, (n >> 8) as u8, n as u8]),
+                    None => o.push(0),
+                }
+                frames.push(o)
+            }
             None => break,
         }
         if frames.len() > tail.len() + 2 {
@@ -1037,7 +1048,8 @@ fn c06_one(rep: &mut Report, stream: &[u8], restrict: Option<&[usize]>, desc: &d
 pub fn c06(ctx: &Ctx) -> (Report, Meta) {
     let depth = ctx.tier.pick(4usize, 5usize);
     let strlen = ctx.tier.pick(7usize, 8usize);
-    let toks = tokens();
+    // the long token is explored with restricted chunk sizes below (all chunkings of 800+ bytes are out of reach)
+    let toks: Vec<(&'static str, Vec<u8>)> = tokens().into_iter().filter(|t| t.0 != "L800").collect();
     let all = seqs(toks.len(), depth);
     let nsh = 256;
     let parts = par_shards(nsh, |sh| {
@@ -1114,6 +1126,18 @@ pub fn c06(ctx: &Ctx) -> (Report, Meta) {
     let mut s2 = big.clone();
     s2.extend_from_slice(&big[..700]);
     c06_one(&mut rep, &s2, Some(&restrict), &|| json!("maxframe + truncated maxframe, restricted chunk sizes"));
+    // a stray preamble one or two bytes in front of a long frame starts a bogus candidate (declared length 768+ /
+    // 211+) that the frame itself completes; cuts around the ends of the bogus candidates and of the frame
+    {
+        let long = make_frame(&fill(5, 800));
+        let r = [1usize, 2, 3, 4, 5, 6, 7, 8, 216, 217, 218, 219, 220, 773, 774, 775, 776, 777, 805, 806, 807, 808, 809];
+        for pre in [vec![0xD3u8], vec![0xD3, 0x00], vec![0xD3, 0xD3], vec![0x00, 0xD3, 0x01], vec![0xD3, 0x00, 0xD3]] {
+            let mut s = pre.clone();
+            s.extend_from_slice(&long);
+            s.extend_from_slice(&make_frame(&[0x3E]));
+            c06_one(&mut rep, &s, Some(&r), &|| json!({"stray bytes": hex(&pre), "then": "800-byte-payload frame, L1 frame; restricted chunk sizes"}));
+        }
+    }
     // a stream longer than 64 KiB (3000 copies of the 1005 frame = 75 000 bytes), chunk sizes around 2^16
     {
         let f1005 = unhex("D300133ED7D30202980EDEEF34B4BD62AC0941986F33360B98");
@@ -1349,9 +1373,8 @@ pub fn c14(ctx: &Ctx) -> (Report, Meta) {
             });
             match r {
                 Err(pn) => {
-                    // panics are C02's business; here they only prevent classification
-                    rep.outcome("panic(not judged here)");
-                    let _ = pn;
+                    // neither the variant of this number nor Corrupt (C02 reports the panic as such)
+                    rep.violation("C14", format!("classify:{}:panic:{}", n, pn.location), format!("n={} ({}): decoding panics instead of giving {}: {}", n, if supported { "a message feature" } else { "not a feature" }, if supported { "its variant or Corrupt" } else { "MsgNotSupported" }, pn.message), p.len() as u64, json!({"kind":"frame_decode","frame":hex(&f)}));
                 }
                 Ok((class, num, dbg, built_num, uns)) => {
                     let mut bad: Option<String> = None;
@@ -1442,6 +1465,22 @@ pub fn c14(ctx: &Ctx) -> (Report, Meta) {
     // their own number or Corrupt
     let dec = crate::decode::run_decode_engine(ctx, "C14");
     rep.merge(dec);
+    // hostile list frames (every announced satellite count, maximal bias counts): the variant of their number or Corrupt
+    for n in [1059u16, 1065] {
+        if !feats.contains(&n) {
+            continue;
+        }
+        for f in crate::bias::hostile_frames(n) {
+            rep.transitions += 1;
+            rep.traces += 1;
+            match catch(|| MessageFrame::new(&f).map(|fr| { let m = fr.get_message(); (outcome_class(&m), m.number()) })) {
+                Ok(Ok(("Corrupt", _))) => rep.outcome("hostile-corrupt"),
+                Ok(Ok(("typed", Some(x)))) if x == n => rep.outcome("hostile-typed"),
+                Ok(other) => rep.violation("C14", format!("classify:{}:hostile", n), format!("n={}: frame with a maximal bias list decodes to {:?}", n, other.map(|x| x.0).unwrap_or("frame not accepted")), f.len() as u64, json!({"kind":"frame_decode","frame":hex(&f)})),
+                Err(pn) => rep.violation("C14", format!("classify:{}:panic:{}", n, pn.location), format!("n={}: decoding a frame with a maximal bias list panics instead of giving its variant or Corrupt: {}", n, pn.message), f.len() as u64, json!({"kind":"frame_decode","frame":hex(&f)})),
+            }
+        }
+    }
     rep.extra.insert("supported_numbers".into(), json!(feats.len()));
     rep.sample(json!({"n": 1005, "shapes": "2,3,8,200,1023-byte payloads of 00/FF/other + testdata payloads", "expect": "Msg1005 or Corrupt"}));
     rep.sample(json!({"n": 1018, "expect": "MsgNotSupported{1018}"}));
